@@ -112,6 +112,28 @@ type Client struct {
 	Switches int
 	Tag      uintptr // address used for the client->driver hand-over edge
 	tagCell  *int
+	local    any // what the running client's glue wants code blocks to find (see SetLocal)
+}
+
+// SetLocal stores a value with the client that is running now; Local gives it
+// back to code called by that client (the simulation context of a Parse call
+// that is made without a GlobalStore option).
+//
+//go:norace
+func SetLocal(v any) {
+	if cur != nil {
+		cur.local = v
+	}
+}
+
+// Local returns what SetLocal stored for the running client.
+//
+//go:norace
+func Local() any {
+	if cur == nil {
+		return nil
+	}
+	return cur.local
 }
 
 // Strategy kinds.
